@@ -1,7 +1,7 @@
 #!/bin/bash
 # usage: confirm_seeded.sh <Cxx> <variant>  -- confirm in the agent's scratch worktree that the seeded change
 # (1) keeps the existing suite green, (2) makes the demo fail, (3) demo passes without it. Prints one CONFIRM line.
-P=$1; V=$2; WT=/tmp/wt-$P; S=$WT/SEEDED/$V
+P=$1; V=$2; PFX=${3:-wt}; WT=/tmp/$PFX-$P; S=$WT/SEEDED/$V
 cd $WT || exit 2
 git checkout -q -- src; mkdir -p tests; cp $S/seeded_demo.rs tests/seeded_demo.rs
 clean=$(cargo test --offline --test seeded_demo 2>&1 | grep -E "^test result" | tail -1)
